@@ -458,7 +458,7 @@ func init() {
 	ps := &PropSpec{
 		ID: "C16", Level: "exploration",
 		Verdict: []string{"conc.", "live.", "det.", "preload.", "client."},
-		Rule: "(a) worker schedules: a generated history with commits of both flavours and batch preloads is executed with 1 worker, then re-executed with workers in {2,3,4,8,16,64} under seeded schedules of the real worker goroutines (policies random, always-first, always-last, round-robin, starve-one; yield points: every job taken by a commit/preload worker and every ledger call of the committing goroutine); registers at every commit point, preload results and step results must equal the 1-worker execution; one encoder (commit) or decoder (preload) failure is injected to drive the early-exit paths: same error category, unchanged view, cached slabs equal to their sequential decode, no blocked goroutine when the bubble ends, and a fault-free retry converges. (b) independent clients: 2-6 clients, each with its own ledger, storage, containers and history (same slab-size setting), run as goroutines interleaved by the scheduler at every ledger call and every comparator / hash-input / decoder callback, with pool flushes; every client's step results and final registers must equal its solo execution. (c) the same workloads free-running with seeded jitter under the race detector (separate -race build, GOMAXPROCS 2/4/16): zero race reports. Non-trivial = (a) >= 1 scheduled commit of >= 3 slabs with >= 2 workers, or (b) >= 2 clients with >= 20 scheduler decisions; distinct by trace hash",
+		Rule: "(a) worker schedules: a generated history with commits of both flavours and batch preloads is executed with 1 worker, then re-executed with workers in {2,3,4,8,16,64} under seeded schedules of the real worker goroutines (policies random, always-first, always-last, round-robin, starve-one; yield points: every job taken by a commit/preload worker, every result receive of the collector, every ledger call of the committing goroutine and, in element-granular variants, every n-th element / type-info encode or element decode inside a worker's job); registers at every commit point, preload results and step results must equal the 1-worker execution; one encoder (commit) or decoder (preload) failure - or a failure that persists from the k-th call on, so that several workers fail in the same call - or a failing ledger read is injected to drive the early-exit paths; the registers a rejected deterministic commit leaves behind must equal those of the 1-worker execution; same error category, unchanged view, cached slabs equal to their sequential decode, no blocked goroutine when the bubble ends, and a fault-free retry converges. (b) independent clients: 2-6 clients, each with its own ledger, storage, containers and history (same slab-size setting), run as goroutines interleaved by the scheduler at every ledger call and every comparator / hash-input / decoder callback, with pool flushes; every client's step results and final registers must equal its solo execution. (c) the same workloads free-running with seeded jitter under the race detector (separate -race build, GOMAXPROCS 2/4/16): zero race reports. Non-trivial = (a) >= 1 scheduled commit of >= 3 slabs with >= 2 workers, or (b) >= 2 clients with >= 20 scheduler decisions; distinct by trace hash",
 		ExpectedReach: []string{"sched.worker-decisions", "sched.client-decisions", "conc.done-path", "fault.callback.encode", "fault.callback.decode", "preload.parallel-path", "mode.workers", "mode.clients", "pool.flush"},
 		Assumptions: []string{"global settings (slab size, collision limit) are written only between runs, never while a task is alive (the property excludes concurrent writes to them)",
 			"the controlled scheduler creates happens-before edges, so data races are decided only by the free-running -race configuration, whose reproduction is probabilistic"},
